@@ -180,6 +180,19 @@ func (e *DNSEntry) DecodeAnswers(p DNS, offset int, buffer []byte) (int, bool, e
 //  /                                               /
 //  +--+--+--+--+--+--+--+--+--+--+--+--+--+--+--+--+
 func (e *DNSEntry) decodeRRs(count int, p DNS, offset int, buffer []byte) (int, bool, error) {
+	// the exported DecodeAnswers can be called on a zero DNSEntry: writing to its nil maps would panic
+	if e.IP4Records == nil {
+		e.IP4Records = make(map[netip.Addr]IPResourceRecord)
+	}
+	if e.IP6Records == nil {
+		e.IP6Records = make(map[netip.Addr]IPResourceRecord)
+	}
+	if e.CNameRecords == nil {
+		e.CNameRecords = make(map[string]NameResourceRecord)
+	}
+	if e.PTRRecords == nil {
+		e.PTRRecords = make(map[string]IPResourceRecord)
+	}
 	var updated bool
 	var tmpBuf []byte // temporary buffer to avoid allocation
 	for i := 0; i < count; i++ {
